@@ -29,7 +29,7 @@ ASSUMPTIONS = [
     "reference wire walker and name decoder; RDATA decoded with dns.rdata.from_wire (C02)",
     "maximality of the kept prefix is not demanded; TooBig under prefer_truncation is legitimate only when header+question-less OPT/padding/TSIG alone exceed the limit",
 ]
-REQUIRED = ["mon.direct_renderer", "mon.padding_option_already_present", "mon.render_under_limit", "mon.prefix_check", "mon.tc_rule", "mon.padding_multiple", "mon.toobig_legitimacy", "mon.truncated_outcomes"]
+REQUIRED = ["mon.bulky_opt_record", "mon.direct_renderer", "mon.padding_option_already_present", "mon.render_under_limit", "mon.prefix_check", "mon.tc_rule", "mon.padding_multiple", "mon.toobig_legitimacy", "mon.truncated_outcomes"]
 BUDGET = {"quick": 32.0, "thorough": 480.0}
 
 
@@ -268,6 +268,13 @@ def run(spec, ctx):
                     ctx.count("mon.padding_option_already_present")
                 m.use_edns(max(m.edns, 0), m.ednsflags, m.payload or 1232, options=opts, pad=pad)
                 info["edns"] = m.edns
+            if rng.random() < 0.12:
+                # an OPT record that is large by itself (a long NSID / a bulky private option): limits below its size cannot be
+                # met at all, and the refusal is the too-big error like any other
+                big = dns.edns.GenericOption(rng.choice((3, 65001)), bytes(rng.randrange(256) for _ in range(rng.choice((300, 480, 500, 520, 700, 2000)))))
+                m.use_edns(max(m.edns, 0), m.ednsflags, m.payload or 1232, options=list(m.options) + [big], pad=m.pad)
+                info["edns"] = m.edns
+                ctx.count("mon.bulky_opt_record")
             key = None
             if rng.random() < 0.5:
                 # key name sharing a suffix with the message names (compressible) or not
